@@ -11,6 +11,7 @@ Pick == /\ cfg = NoCfg
         /\ \E r \in RSet :
              /\ r % NShards = Shard
              /\ \/ \E L \in L1Set : cfg' = [kind |-> "colfilter", r |-> r, L |-> L, hp |-> FALSE]
+                \/ \E L \in L1Set : cfg' = [kind |-> "colfilter0", r |-> r, L |-> L, hp |-> FALSE]
                 \/ \E m \in QSet, hp \in BOOLEAN : r % 4 = 0 /\ cfg' = [kind |-> "coldfilt", r |-> r, L |-> m, hp |-> hp]
                 \/ \E m \in QSet, hp \in BOOLEAN : r % 2 = 0 /\ cfg' = [kind |-> "colifilt", r |-> r, L |-> m, hp |-> hp]
 Spec == Init /\ [][Pick]_vars
@@ -22,6 +23,10 @@ Pol(hp) == ~hp
 ColfilterOK == cfg.kind = "colfilter" =>
                   /\ Same3(ImplColfilter(cfg.r, cfg.L), RefColfilter(cfg.r, cfg.L))
                   /\ (cfg.L % 2 = 1 => ImplColfilter(cfg.r, cfg.L).no = cfg.r)
+\* zero extension: same size for odd lengths, never reads outside the column
+Colfilter0OK == cfg.kind = "colfilter0" =>
+                  /\ Same3(ImplColfilterZero(cfg.r, cfg.L), RefColfilterZero(cfg.r, cfg.L))
+                  /\ (cfg.L % 2 = 1 => ImplColfilterZero(cfg.r, cfg.L).no = cfg.r)
 ColdfiltOK == cfg.kind = "coldfilt" =>
                   /\ SamePair(ImplColdfilt(cfg.r, cfg.L, cfg.hp), RefColdfilt(cfg.r, cfg.L, Pol(cfg.hp)))
                   /\ ImplColdfilt(cfg.r, cfg.L, cfg.hp).a.no = cfg.r \div 2
@@ -43,6 +48,9 @@ Record ==
     CASE cfg.kind = "colfilter" ->
            [kind |-> "dt1.colfilter", r |-> cfg.r, L |-> cfg.L, hp |-> FALSE, no |-> RefColfilter(cfg.r, cfg.L).no,
             a |-> Entries3(RefColfilter(cfg.r, cfg.L)), b |-> {}]
+      [] cfg.kind = "colfilter0" ->
+           [kind |-> "dt1.colfilter0", r |-> cfg.r, L |-> cfg.L, hp |-> FALSE, no |-> RefColfilterZero(cfg.r, cfg.L).no,
+            a |-> Entries3(RefColfilterZero(cfg.r, cfg.L)), b |-> {}]
       [] cfg.kind = "coldfilt" ->
            LET P == RefColdfilt(cfg.r, cfg.L, Pol(cfg.hp)) IN
            [kind |-> "dt1.coldfilt", r |-> cfg.r, L |-> cfg.L, hp |-> cfg.hp, no |-> P.a.no, a |-> Entries3(P.a), b |-> Entries3(P.b)]
